@@ -104,7 +104,14 @@ def q_reach_allow(ctx, p):
             continue
         seen_fns.add(fn.name)
         functions.append(fn.name)
-        enc = sym.Enc(fn, funcs, glob)
+        try:
+            enc = sym.Enc(fn, funcs, glob)
+        except Exception as ex:
+            if not ctxpath:
+                raise
+            witnesses.append(dict(key="%s: helper not encodable" % short_fn(fn.name),
+                                  what="helper %s reached via %s could not be encoded (%r): treated as not allowed" % (short_fn(fn.name), ctxpath, ex)))
+            continue
         s = z3.Solver()
         s.add(assum)
         s.add(enc.extra)
@@ -140,6 +147,17 @@ def q_reach_allow(ctx, p):
                     return dict(status="inconclusive", reason="assumption place %r not found in %s" % (pat, fn.name))
             if ctx.check(s) != z3.sat:
                 return dict(status="inconclusive", reason="vacuity guard: assumptions unsatisfiable")
+        elif p.get("descend"):
+            # a helper the target function delegates to runs under the same assumptions about the
+            # connection: the discriminant assumptions apply wherever the helper reads that state
+            for pat, val, *rel in (p.get("assume_disc") or []):
+                for b2 in enc.order:
+                    for k2, v2 in enc.out_state[b2].items():
+                        if not k2.startswith("disc:"):
+                            continue
+                        desc = k2 + " : " + " ".join(fn.locals.get(l, "") for l in re.findall(r"_\d+", k2))
+                        if re.search(pat, desc):
+                            s.add(v2 != val if (rel and rel[0] == "ne") else v2 == val)
         scope = None
         if p.get("scope_loop_next") and not ctxpath:
             scope = loop_body(enc, p["scope_loop_next"])
@@ -168,6 +186,28 @@ def q_reach_allow(ctx, p):
                     stack.append((cf, ctxpath + [nc]))
                 elif not ok:
                     pass
+            if p.get("descend") and len(ctxpath) < 2 and not any(d.search(nc) or d.search(callee) for d in deny):
+                # delegation to a crate-local helper (extract-function refactorings): examine the helper too
+                last = nc.split("::")[-1]
+                cands = [f for n, f in funcs.items() if not n.startswith("const ") and "{closure" not in n
+                         and (n == last or n.endswith("::" + last))]
+                if len(cands) == 1 and cands[0].name not in seen_fns and cands[0].name != fn.name and re.search(r"^[a-z_]+::<impl at src/|^[a-z_]+$", cands[0].name):
+                    stack.append((cands[0], ctxpath + [nc]))
+            if not ok and not deny and len(ctxpath) < 3:
+                # a crate-local helper that is not on the allow-list is not an effect by itself:
+                # it is examined like a closure body (every call inside it must be allowed, under
+                # the same assumptions); only helpers whose MIR is found unambiguously
+                last = nc.split("::")[-1]
+                cands = [f for n, f in funcs.items() if not n.startswith("const ") and "{closure" not in n
+                         and (n == last or n.endswith("::" + last))]
+                if len(cands) == 1 and cands[0].name not in seen_fns and cands[0].name != fn.name:
+                    stack.append((cands[0], ctxpath + [nc]))
+                    details.append("descended into helper %s (not on the allow-list; its calls are examined instead)" % nc)
+                    discharged += 1
+                    continue
+                if len(cands) == 1 and cands[0].name in seen_fns:
+                    discharged += 1
+                    continue
             if ok:
                 discharged += 1
             else:
@@ -730,7 +770,19 @@ def q_bounds(ctx, p):
                 # terms only make a SATISFIABLE answer meaningless, so there the site is undecided.
                 weak = ("havoc_" in str(c) or "unm_" in str(c) or (p.get("inputs_only") and not provenance_ok(enc, c, True)))
             else:
+                # index bounds: lengths are INPUTS only when they are the length of a parameter slice
+                # (the request); the length of a slice produced by a call (chunks_exact, split_at,
+                # sub-slicing), results of other calls and fields are unknown-but-not-arbitrary:
+                # a satisfiable answer that depends on them is undecided, not a witness
                 weak = False
+                pargs = set(fn.args) | set("*" + a for a in fn.args)
+                for n in free_names(c, data_only=True):
+                    ml = re.match(r"^len_(_\d+)_", n)
+                    if ml:
+                        if not (ml.group(1) in fn.args or enc.ref_base.get(ml.group(1)) in pargs):
+                            weak = True
+                    elif re.search(r":call_bb\d+!\d+$", n) or re.search(r":place(_\w+)?!\d+$", n) or "unm_" in n:
+                        weak = True
             if neg:
                 c = z3.Not(c)
             r = ctx.check(s, enc.reach[b], z3.Not(c))
